@@ -1035,6 +1035,23 @@ class Interp:
             if m == "min" and isinstance(r, Wire) and (not isinstance(recv, Wire) or not isinstance(args[0], Wire)):
                 r = int(r)
             return r
+        if m in ("is_none_or", "is_some_and", "map", "and_then", "filter") and isinstance(recv, tuple) and recv[0] in ("Some", "None") and e["a"] \
+                and e["a"][0].get("k") == "path" and self.on_call is not None and recv[0] == "Some" \
+                and e["a"][0]["p"].split("::")[-1] not in ("from", "into", "clone", "to_owned"):
+            # a function item passed instead of a closure: resolved through the rule's call table
+            r = self.on_call("fn", e["a"][0]["p"], e["a"][0], [recv[1]], None)
+            if r is not NotImplemented:
+                if m in ("is_none_or", "is_some_and"):
+                    return r
+                if m == "map":
+                    return ("Some", r)
+                if m == "and_then":
+                    return r
+                if m == "filter" and isinstance(r, bool):
+                    return recv if r else ("None",)
+        if m in ("is_none_or", "is_some_and") and isinstance(recv, tuple) and recv[0] in ("Some", "None") and e["a"] and e["a"][0].get("k") == "path" \
+                and recv[0] == "None":
+            return m == "is_none_or"
         if m in ("is_none_or", "is_some_and") and isinstance(recv, tuple) and recv[0] in ("Some", "None") and args and isinstance(args[0], dict):
             if recv[0] == "None":
                 return m == "is_none_or"
